@@ -77,6 +77,8 @@ def cfgEnumNoneReported : Bool := true
 def cfgCacheTracksAssignments : Bool := true
 /-- the cached verdict also stands for the ARGUMENTS of every field it was computed with (fix C13-HHH3) -/
 def cfgCacheTracksArguments : Bool := true
+/-- the cached verdict stands for everything the validator reads: root types, names, members, directives (fix C13-S12) -/
+def cfgCacheTracksStructure : Bool := true
 /-- the resolver-signature rule inspects the callable itself, not what it `functools.wraps` (fix C13-HH2) -/
 def cfgOuterSignature : Bool := true
 
